@@ -25,12 +25,21 @@ Commands (replies):
   (namespace (<dest> <scalar>)…)                     ((k reprstring)…)  parse_args(...).__dict__
   (mainopts (user…) (pwd…) (given…))                 ((k reprstring)…)  options main compiles with
   (sanitise <string>)                                string
-  (formatcode (block (tuple <string>…)…)…)           (string…)
+  (compsigwin (<arg>…) <debug> <ext_suffix>)         string      _compilation_signature, win32 branch
+  (renumber (terms <term>…) (coeffs <term>…) (consts <term>…) (args <term>…))
+        naming.py:41-64 for an expression with these terminals (traversal order) and these set-iteration orders; terms are
+        (coeff <count> <space> <meshid> <cel>) | (const <count> <shape> <meshid> <cel>) |
+        (arg <number> <part> <space> <meshid> <cel>) | (geo <cls> <meshid> <cel>) | (other <data>)
+        reply ((valid <bool>) (distinctkeys <bool>) (geonew <n>) (coeffs <term>…) (consts <term>…) (args <term>…)
+               (domains (<meshid> <cel>)…) (data (<kind> <nat>…)…))   -- data: `termData` per terminal, in order
+  formatcode, tpl, citems, tplholes, tplobs          see FfcxModel/Cli/Driver.lean (`cliDispatch`, fall-through arm)
 -/
 import FfcxModel.Driver.Loop
 import FfcxModel.Jit.Naming
+import FfcxModel.Jit.Renumber
 import FfcxModel.Cli.Options
 import FfcxModel.Generated.Options
+import FfcxModel.Cli.Driver
 
 open Ffcx Ffcx.Naming Ffcx.Cli
 
@@ -101,6 +110,53 @@ def asComp : List Sexp → Except String CompileArgs
 def ofDict (d : Dict String Scalar) : Sexp :=
   .list (d.map fun kv => .list [ofStr kv.1.toList, ofStr (reprScalar kv.2)])
 
+/-! ### renumbering (C13) -/
+open Ffcx.Naming.Rn in
+def asTerm : Sexp → Except String Term
+  | .list [.atom "coeff", c, s, i, e] => do pure (.coeff (← c.asNat) (← s.asNat) ⟨← i.asNat, ← e.asNat⟩)
+  | .list [.atom "const", c, s, i, e] => do pure (.const (← c.asNat) (← s.asNat) ⟨← i.asNat, ← e.asNat⟩)
+  | .list [.atom "arg", n, p, s, i, e] => do
+      pure (.arg (← n.asNat) (← p.asNat) (← s.asNat) ⟨← i.asNat, ← e.asNat⟩)
+  | .list [.atom "geo", k, i, e] => do pure (.geo (← k.asNat) ⟨← i.asNat, ← e.asNat⟩)
+  | .list [.atom "other", d] => do pure (.other (← d.asNat))
+  | s => .error s!"bad term {s}"
+
+open Ffcx.Naming.Rn in
+def ofTerm : Term → Sexp
+  | .coeff c s m => .list [.atom "coeff", .ofNat c, .ofNat s, .ofNat m.id, .ofNat m.cel]
+  | .const c s m => .list [.atom "const", .ofNat c, .ofNat s, .ofNat m.id, .ofNat m.cel]
+  | .arg n p s m => .list [.atom "arg", .ofNat n, .ofNat p, .ofNat s, .ofNat m.id, .ofNat m.cel]
+  | .geo k m => .list [.atom "geo", .ofNat k, .ofNat m.id, .ofNat m.cel]
+  | .other d => .list [.atom "other", .ofNat d]
+
+open Ffcx.Naming.Rn in
+def ofTermData : TermData → Sexp
+  | .coeff n s mn e => .list [.atom "coeff", .ofNat n, .ofNat s, .ofNat mn, .ofNat e]
+  | .const mn e s n => .list [.atom "const", .ofNat mn, .ofNat e, .ofNat s, .ofNat n]
+  | .arg n p s mn e => .list [.atom "arg", .ofNat n, .ofNat p, .ofNat s, .ofNat mn, .ofNat e]
+  | .geo k mn e => .list [.atom "geo", .ofNat k, .ofNat mn, .ofNat e]
+  | .other d => .list [.atom "other", .ofNat d]
+
+def asTagged (tag : String) : Sexp → Except String (List Sexp)
+  | .list (.atom t :: xs) => if t = tag then .ok xs else .error s!"expected ({tag} …)"
+  | _ => .error s!"expected ({tag} …)"
+
+open Ffcx.Naming.Rn in
+def renumberCmd (ts cs ks as : Sexp) : Except String Sexp := do
+  let terms ← (← asTagged "terms" ts).mapM asTerm
+  let o : SetOrders := ⟨← (← asTagged "coeffs" cs).mapM asTerm, ← (← asTagged "consts" ks).mapM asTerm,
+    ← (← asTagged "args" as).mapM asTerm⟩
+  let rn := renumber terms o
+  pure (.list [
+    .list [.atom "valid", Sexp.ofBool (o.validB terms)],
+    .list [.atom "distinctkeys", Sexp.ofBool (decide (DistinctKeys terms))],
+    .list [.atom "geonew", .ofNat (geoNew terms).length],
+    .list (.atom "coeffs" :: rn.coeffs.map ofTerm),
+    .list (.atom "consts" :: rn.consts.map ofTerm),
+    .list (.atom "args" :: rn.args.map ofTerm),
+    .list (.atom "domains" :: rn.domains.map fun m => .list [.ofNat m.id, .ofNat m.cel]),
+    .list (.atom "data" :: (leafData terms o).map ofTermData)])
+
 def generatedActions : List Action := Ffcx.Generated.Options.actions
 def generatedDefaults : Dict String Scalar := Ffcx.Generated.Options.defaultDict
 
@@ -115,6 +171,9 @@ def dispatch (req : Sexp) : Except String Sexp :=
     | "list", parts => do pure (ofStr (listOf (← parts.mapM asStr)))
     | "optsig", items => do pure (ofStr (optionSignature (← asItems items)))
     | "compsig", c => do pure (ofStr (compilationSignature (← asComp c)))
+    | "compsigwin", [args, dbg, ext] => do
+        pure (ofStr (compilationSignatureWin32 (← (← args.asList).mapM asStr) (← asScalar dbg) (← asScalar ext)))
+    | "renumber", [ts, cs, ks, as] => renumberCmd ts cs ks as
     | "pointskey", [p] => do pure (ofStr (reprPts (← asPts p)))
     | "encode", [env, objs, tag] => do
         match encode reprPts (← asEnv env) (← asObjs objs) (← asStr tag) with
@@ -149,11 +208,7 @@ def dispatch (req : Sexp) : Except String Sexp :=
         pure (ofDict (mainOptions generatedActions generatedDefaults (← asSItems (← u.asList))
           (← asSItems (← p.asList)) (← asSItems (← g.asList))))
     | "sanitise", [s] => do pure (ofStr (sanitiseFilename (← asStr s)))
-    | "formatcode", blocks => do
-        let bs ← blocks.mapM fun b => do
-          (← b.asList).mapM fun t => do (← t.asList).mapM asStr
-        pure (.list ((formatCode bs).map ofStr))
-    | _, _ => .error s!"unknown command or bad arity: {cmd}"
+    | _, _ => Ffcx.Cli.cliDispatch cmd args
   | _ => .error "request must be a list"
 
 end NamesDriver
